@@ -51,6 +51,43 @@ CHECKS.update({
   note=ALLOC_NOTE, technique="contract-based deductive verification (postcondition), SMT discharge", ref="DESIGN.md section 7 (C04-C07)"),
 })
 
+SRV_NOTE = COMMON_NOTE + (" Assumed here: the packet codec insomniacslk/dhcp (contracts in dhcpv4.spec / dhcpv6.spec, written from its source: what FromBytes, NewReplyFromRequest, NewReplyFromMessage, NewAdvertiseFromSolicit, "
+  "NewRelayReplFromRelayForw, ToBytes, the option maps/lists and the option constructors do) - its own correctness and panic-freedom on arbitrary bytes are NOT decided (code outside /repo); "
+  "the ghost effect contracts of effects.spec (a datagram handed to (*ipvN.PacketConn).WriteTo or to sendEthernet's socket is `sent`); the kernel delivers the receiving interface index with every datagram; "
+  "`preserves` clauses: handlers cannot reach the listener object or its handler slice; net.IP predicates are uninterpreted functions of the address bytes at call time; sendEthernet's ghost effect is a trusted-ensures contract (its body is checked for safety only). "
+  "Every built-in handler is verified against the Handler4/Handler6 type contract (refine obligations), and calls through handler values rely on that contract only.")
+CHECKS.update({
+ "C11": dict(
+  text=("Deductive proof of postconditions on the real server.(*listener4).HandleMsg4 over ghost `sent` state: at most one datagram is sent; one is sent only for a BOOTREQUEST whose message type is DISCOVER or REQUEST; the packet sent is the response "
+        "returned by the handler chain, it is a BOOTREPLY with the request's xid, htype, chaddr, flags and giaddr, echoes options 82 and 61, and is an OFFER for a DISCOVER / ACK for a REQUEST. The loop over handlers carries this as an inductive invariant, "
+        "using the frame half of the Handler4 type contract (handlers leave the request, the reply header, options 53/61/82 untouched), which is itself proved for every built-in DHCPv4 handler."),
+  note=SRV_NOTE, technique="contract-based deductive verification: postconditions over ghost effect state, loop invariant, function-type contract with refinement obligations", ref="DESIGN.md section 7 (C11, C15)"),
+ "C12": dict(
+  text=("Deductive proof of postconditions on the real server.(*listener6).HandleMsg6: a datagram is sent only for a parsed packet whose innermost message has a supported type; the reply kind follows the table (ADVERTISE for SOLICIT, REPLY with Rapid Commit "
+        "for SOLICIT+RC, REPLY for the six other types), carries the transaction id and the client-id option of the request; for a Relay-Forward the datagram is NewRelayReplFromRelayForw(request, inner reply); it goes to the source address and is pinned to the "
+        "receiving interface (bound interface first) iff that address is link-local. The Handler6 type contract's frame clauses are proved for every built-in DHCPv6 handler."),
+  note=SRV_NOTE + " The per-layer mirroring of link-address, peer-address and Interface-ID is inside NewRelayReplFromRelayForw (library): assumed, not proved.",
+  technique="contract-based deductive verification: postconditions over ghost effect state, loop invariant, function-type contract", ref="DESIGN.md section 7 (C12)"),
+ "C13": dict(
+  text=("Deductive proof, via a ghost call log appended by the call rule for Handler4/Handler6 values, that HandleMsg4/HandleMsg6 invoke l.handlers[0..k) in slice order, each once, each with the original request and the response returned by its predecessor, "
+        "stopping after the first handler that signals stop (k < len only then); what is sent is the last response, and nothing is sent when it is nil. `Built-in handlers return nil only together with stop` is a clause of the type contracts proved for every built-in handler."),
+  note=SRV_NOTE + " Not covered by this check: plugins.LoadPlugins / server.Start (that the handler slice equals the configured plugin list) - that half of C13 is not claimed.",
+  technique="contract-based deductive verification: ghost call log, quantified loop invariant, function-type contracts", ref="DESIGN.md section 7 (C13)"),
+ "C14": dict(
+  text=("Deductive proof of the RFC 8415 section 16 decision matrix as a postcondition of serverid.Handler6 (discard iff SOLICIT/CONFIRM/REBIND carry a Server Identifier, REQUEST/RENEW/DECLINE/RELEASE carry none, or the identifier differs), and that a passed reply "
+        "carries exactly one Server Identifier option equal to the configured DUID; for serverid.Handler4: a request naming another server in siaddr or in option 54 is dropped, otherwise siaddr and option 54 of the reply are the configured address. Other options are untouched."),
+  note=SRV_NOTE + " DUID equality is the library's DUID.Equal (uninterpreted).", technique="contract-based deductive verification: decision-table postconditions", ref="DESIGN.md section 7 (C14)"),
+ "C15": dict(
+  text=("Deductive proof of the RFC 2131 section 4.1 addressing table as five postconditions of HandleMsg4 over the ghost destination (giaddr set -> giaddr:67; else NAK -> broadcast:68; else ciaddr set -> ciaddr:68; else broadcast flag -> broadcast:68; "
+        "else link-level unicast of this response on the pinned interface), and that the control message pins the interface (bound interface first, else the receiving one) exactly when the destination is the broadcast address, link-local, or the link-level path."),
+  note=SRV_NOTE + " The frame actually built by sendEthernet (gopacket) and the bytes leaving the socket are not decided.", technique="contract-based deductive verification: decision-table postconditions over ghost effect state", ref="DESIGN.md section 7 (C11, C15)"),
+ "C17": dict(
+  text=("Deductive proof of one postcondition table per option plugin on the real handlers (dns, mtu, netmask, router, searchdomains, staticroute, lease_time, ipv6only, autoconfigure, nbp, sleep; DHCPv4 and DHCPv6 variants): under the stated condition the option map/list "
+        "of the response is updated at exactly the plugin's code with the option built by the library constructor from the configured value, otherwise it is unchanged; all other codes are untouched; stop flags as stated (ipv6only stops only for clients that list option 108 explicitly; "
+        "autoconfigure drops an address-less OFFER unless the client sent option 116; nbp adds the boot-file options at most once)."),
+  note=SRV_NOTE + " Wire encodings are the library constructors' (optenc is an uninterpreted function of the constructed option); searchdomains only proves presence of the option.", technique="contract-based deductive verification: decision-table postconditions, frame over option maps", ref="DESIGN.md section 7 (C17)"),
+})
+
 NOT_YET = {}
 
 def main():
